@@ -237,6 +237,40 @@ fn written_case(t: &Target, l: &mut Local) {
             Ok(Ok(())) => {}
         }
     }
+    // ... and as the last packet of a datagram, reached by position (nth / skip / last) as well as by walking
+    {
+        l.transitions += 4;
+        let mut two = vec![0x81u8, 203, 0, 1, 0xAB, 0xCD, 0xEF, 0x01];
+        two.extend_from_slice(&bytes);
+        let r = guard::catch(|| -> Result<(), String> {
+            let c = || Compound::parse(&two).map_err(|e| format!("Compound::parse = {:?}", e));
+            let is_it = |x: Option<Result<Packet<'_>, RtcpParseError>>, how: &str| match x {
+                Some(Ok(Packet::Unknown(u))) if u.data() == &bytes[..] => Ok(()),
+                other => Err(format!("{} gives {:?}", how, other.map(|r| r.map(|p| p.type_()).map_err(|e| format!("{:?}", e))))),
+            };
+            is_it(c()?.nth(1), "nth(1)")?;
+            is_it(c()?.skip(1).next(), "skip(1).next()")?;
+            is_it(c()?.last(), "last()")?;
+            let mut it = c()?;
+            let _ = it.next();
+            is_it(it.next(), "the second next()")?;
+            if c()?.count() != 2 {
+                return Err(format!("count() = {}", c()?.count()));
+            }
+            Ok(())
+        });
+        match r {
+            Err(pi) => {
+                l.subject_panic("Compound", &pi, || hex_short(&two));
+                return;
+            }
+            Ok(Err(m)) => {
+                l.violation(format!("written-packet-last-in-a-datagram:{}", t.builder()), || hex_short(&two), || m);
+                return;
+            }
+            Ok(Ok(())) => {}
+        }
+    }
     // conversion back to every family member of this type number
     if EXT_PTS.contains(&pt) {
         let h = read::header(&bytes).unwrap();
@@ -327,6 +361,8 @@ pub fn c19(ctx: &mut Ctx) {
         Member::Nested(vec![Member::Plain(Pkt::Unknown { pt: 209, count: 0, data: vec![], pad: 8 })]),
         Member::Plain(Pkt::Bye { ssrcs: vec![7], reason: "x".into(), pad: 0 }),
         Member::Plain(Pkt::Rr { ssrc: 8, blocks: vec![], pad: 0 }),
+        // header-only (4 bytes)
+        Member::Plain(Pkt::Unknown { pt: 210, count: 9, data: vec![], pad: 0 }),
     ];
     let k = menu.len() as u64;
     ctx.run_space("embedded-in-compounds", seq_count(k, 3), |idx, l| {
